@@ -6,7 +6,7 @@ from checks.common import absorb, replay, tlc_emit, validate_traces
 
 LEVEL = "model_checking"
 
-INV = "INVARIANTS IndexAgrees Disjoint FieldTypes ReadBack NoPhantom\nPROPERTIES Droppable Renamable KindsRefined"
+INV = "INVARIANTS IndexAgrees Disjoint FieldTypes ReadBack NoPhantom TagMetaStr\nPROPERTIES Droppable Renamable KindsRefined"
 
 
 def run(ck):
@@ -38,7 +38,7 @@ def run(ck):
     absorb(ck, r, "point-record")
     tcfg = ("CONSTANTS Keys = {\"k0\",\"k1\",\"k2\",\"k3\",\"k4\",\"k5\",\"k6\",\"k7\",\"k8\",\"k9\",\"k10\",\"k11\"}\n"
             "InitField = \"k0\"\nInitTag = \"k1\"\nWithBoolCastOfNumbers = FALSE\nRich = TRUE\nSampleOneIn = 0\n"
-            "SPECIFICATION TraceSpec\nINVARIANTS IndexAgrees Disjoint FieldTypes ReadBack NoPhantom\n"
+            "SPECIFICATION TraceSpec\nINVARIANTS IndexAgrees Disjoint FieldTypes ReadBack NoPhantom TagMetaStr\n"
             "CONSTRAINT HighWater\nPOSTCONDITION Accepted\nCHECK_DEADLOCK FALSE\n")
     validate_traces(ck, "TracePoint", tcfg, tr, "point", lambda rec: rec["op"]["o"] == "init", timeout=1800)
     # I->S over arbitrary values: extreme integers / floats / numeric texts / long and binary strings / nested collections; the
@@ -47,9 +47,14 @@ def run(ck):
     n, ln = (60, 120) if q else (600, 300)
     r = vlib.vh_json(["record-point-kinds", "-seed", str(ck.seed + 17), "-n", str(n), "-len", str(ln), "-keys", "8", "-out", trk])
     absorb(ck, r, "point-record-extreme-values")
-    kcfg = ("SPECIFICATION TraceSpec\nINVARIANTS IndexAgrees Disjoint FieldTypes\n"
+    kcfg = ("SPECIFICATION TraceSpec\nINVARIANTS IndexAgrees Disjoint FieldTypes TagMetaStr\n"
             "CONSTRAINT HighWater\nPOSTCONDITION Accepted\nCHECK_DEADLOCK FALSE\n")
     validate_traces(ck, "TracePointKinds", kcfg, trk, "point-kinds", lambda rec: rec["op"]["o"] == "init", timeout=1800)
+    if not q:
+        # for EVERY key set and any number of operations: the index invariants (with the strengthening TagMetaStr) are inductive
+        # over PointKinds' actions - machine-checked proof (TLAPS), thorough tier
+        pr = vlib.tlapm_prove("PointKindsProof")
+        ck.note("tlaps_proof_PointKinds_index_invariants_inductive", pr)
     ck.cov["rule"] = ("S->I: TLC explores the COMPLETE reachable state space of the Point model over 3 keys (initial field, "
                       "initial tag, fresh key) and all builtin operations/value kinds; every canonical transition (bystander keys "
                       "in initial condition) - plus in thorough a 1-in-40 sample of all others and the canonical ones of a 4-key "
